@@ -144,11 +144,16 @@ def run_case(case):
         cname = c01.class_name(v, code, etm, hs)
         combos = [(v6, mss, order) for v6 in (False, True) for mss in (1460, 100, 9) for order in ("in_order", "displaced")
                   if not (order == "displaced" and mss == 9)]
+        # records sharing segments: consecutive writes of one direction merged, cut at sizes unrelated to record sizes
+        combos += [(v6, mss, "merged") for v6 in (False, True) for mss in (1460, 333, 77)]
         for v6, mss, order in combos:
             scn = {"version": v, "suite": code, "etm": etm, "hs_secrets": hs,
                    "history": [("c", 0), ("c", 130), ("s", 420), ("s", 17), ("c", 260), ("s", 1)]}
-            f1 = scen.tls_flow(scn, seed, 3, v6=v6, mss=mss)
-            f2 = scen.tls_flow(dict(scn, history=[("s", 33), ("c", 250)]), seed, 4, v6=not v6, mss=mss, key=("second",))
+            if order == "merged":
+                scn["history"] = [("c", 0), ("c", 130), ("c", 5), ("s", 420), ("s", 17), ("s", 300), ("s", 40), ("c", 260), ("c", 90), ("s", 1)]
+            f1 = scen.tls_flow(scn, seed, 3, v6=v6, mss=mss, merged=(order == "merged"))
+            f2 = scen.tls_flow(dict(scn, history=[("s", 33), ("s", 5), ("c", 250), ("c", 7), ("c", 600)]), seed, 4, v6=not v6, mss=mss,
+                               key=("second",), merged=(order == "merged"))
             if order == "displaced":
                 # every other non-first data segment that is directly followed by a segment of its own direction is captured
                 # after that successor, so neighbouring segments meet in the reassembly buffer
